@@ -64,6 +64,12 @@ def bases(rnd, quick):
     rnd.shuffle(pairs)
     out += [list(pr) for pr in (pairs[:5] if quick else pairs)]
     out += [[(0, 1, 2), (2, 1, 0)], [(1, 3, 0, 2), (2, 0, 3, 1)], [(0, 2, 1), (2, 0, 1, 3)], [(1, 0), (0, 1, 2)]]
+    # bases given in an order that is neither sorted nor grouped by length (the automaton must not depend on it)
+    out += [[(1, 3, 0, 2), (0, 1, 2), (2, 1, 0, 3)], [(2, 0, 3, 1), (1, 0, 2), (0, 1, 2, 3), (2, 1, 0)]]
+    for _ in range(2 if quick else 12):
+        b = [util.rand_perm(rnd, 4), util.rand_perm(rnd, 3), util.rand_perm(rnd, 4)]
+        if len(set(b)) == 3:
+            out.append(b)
     # a basis whose first element is not a pin permutation (they exist from length 6 on), followed by a small one
     out.append([(1, 2, 5, 0, 3, 4), (0, 2, 1)])
     out.append([(0, 2, 1), (1, 2, 5, 0, 3, 4)])
